@@ -6,8 +6,8 @@ def spec(tier):
     obs = []
     for tps in (1, 2, 4):
         for n in ((2, 3, 4) if th else (2, 4)):
-            sym = {f"a{i}": I(0, 7 if th else 5) for i in range(n)}
-            sym["R"] = I(0, 8 if th else 6)
+            sym = {f"a{i}": I(0, 9 if th else 5) for i in range(n)}
+            sym["R"] = I(0, 10 if th else 6)
             fixed = dict(tps=tps, n=n)
             for i in range(n, 4):
                 fixed[f"a{i}"] = 0
